@@ -551,7 +551,7 @@ func stateConcurrent(e *Env) {
 		use []bool // format the returned snapshot in the calling task
 	}
 	plans := make([]planned, nTasks)
-	shadow := m0.clone() // only for biasing generation
+	shadow := m0.clone()           // only for biasing generation
 	second := make([]bool, nTasks) // tasks that call the second tracker
 	for t := 1; t < nTasks && st2 != nil; t += 2 {
 		second[t] = true
